@@ -84,6 +84,10 @@ OPS = {
 }
 PROFILE_KEYS = ("UED", "CBG", "TRI", "GBA")
 SPECTRUM_KEYS = ("CS", "GS")
+# the profile assigned again to the Laser that already holds it (no effect on a detached profile): no parameter changes, every later
+# parameter change must still reach the laser's geometry
+for _k in PROFILE_KEYS:
+    OPS[_k] = OPS[_k] + [("laser.laser_profile=same-profile", "reattach", None)]
 
 # observation points (laser frame) for the energy density / polarisation / pointing
 OBS_POINTS = [(0.0, 0.0, 0.0), (0.006, 0.0, 0.3), (0.004, -0.007, 0.7), (0.01, 0.02, -0.5), (-0.003, 0.001, 1.2)]
@@ -660,7 +664,9 @@ def _observe(key, obj, keep):
         for nme in DEFAULTS[key]:
             if nme != "polarization":
                 groups.append(("param:" + nme, _g(lambda: [float(getattr(obj, nme))])))
-        groups.append(("energy_density", _g(lambda: [obj.get_energy_density(*p) for p in OBS_POINTS])))
+        # (the first point is sampled once more at the end: the next observation then starts at the point sampled last, so a value
+        #  remembered per "last point" across a parameter change is seen)
+        groups.append(("energy_density", _g(lambda: [obj.get_energy_density(*p) for p in OBS_POINTS + OBS_POINTS[:1]])))
 
         def vecs(fn):
             out = []
@@ -706,11 +712,14 @@ def _fresh_obs(key, cfg, att):
     return o
 
 
-def _apply(key, obj, op):
+def _apply(key, obj, op, keep=None):
     """apply one op to the live object; returns the exception type name or None."""
     nme, kind, val = op
     try:
-        if kind == "pol":
+        if kind == "reattach":
+            if keep is not None:
+                keep[1].laser_profile = obj
+        elif kind == "pol":
             obj.set_polarization(_vec(val))
         else:
             setattr(obj, nme, val)
@@ -721,7 +730,7 @@ def _apply(key, obj, op):
 
 def _model_apply(cfg, op):
     nme, kind, val = op
-    if kind == "bad":
+    if kind in ("bad", "reattach"):
         return False
     slot = "polarization" if kind == "pol" else nme
     val = tuple(val) if kind == "pol" else val
@@ -761,7 +770,7 @@ def _blame_replay(key, start, att, seq):
         return -1, bad, lo, fo
     for i, oi in enumerate(seq):
         op = OPS[key][oi]
-        _apply(key, obj, op)
+        _apply(key, obj, op, keep)
         _model_apply(cfg, op)
         lo, fo = _observe(key, obj, keep), _fresh_obs(key, cfg, att)
         bad = _diff(lo, fo)
@@ -811,7 +820,7 @@ def _run_history(key, start, att, seq, mask, R):
             bad = _diff(_observe(key, obj, keep), _fresh_obs(key, cfg, att))
             if bad:
                 mismatch = bad
-        exc = _apply(key, obj, op)
+        exc = _apply(key, obj, op, keep)
         R.transitions += 1
         if op[1] == "bad":
             if exc is None:
